@@ -65,7 +65,10 @@ _MAN = {
            'identity of the event and identity of the error value; handler kind (sync/async) compared with Context.NodeType.'),
  'C03': _m('Coq theorems (Props/C03.v): no schedule panics (no send on closed channel, no double close); Shutdown entered at most once, only after all processing calls returned, no event afterwards; '
            'children/handler open until Shutdown returned so every pending delivery (incl. async callbacks fired inside Shutdown) targets an open channel; a clean return of Execute implies everything drained; '
-           'ordering clauses of the trace spec sound. Liveness (a clean run does end) is NOT proved; termination is observed on every scenario.'),
+           'ordering clauses of the trace spec sound; the end-of-run clauses of the lockstep judge (every root received or counted as discarded what the source emitted, every handler its node\'s failures) '
+           'never fire on a clean end (C03_final_clauses_sound). Liveness: deadlock freedom and bounded termination of the shutdown cascade in live networks (C03_can_always_finish, '
+           'C03_every_run_ends_clean, C03_maximal_run_is_clean; every started table is live); fairness of the Go scheduler is outside the model. Scenarios end by script, Executor.Shutdown() or a real SIGTERM '
+           '(pending while the main loop is blocked).'),
  'C04': _m('Coq theorems (Props/C04.v): no drop without the flag in any reachable state; full non-discarding buffer blocks the sender; a drop only at a full discarding buffer, losing exactly that event and '
            'counted; delivery to an open discarding node is enabled in every state (never blocks); exact accounting at a clean end. "Never makes parent/siblings/source wait" on the real code is what the '
            'lockstep correspondence observes with stalled discarding subtrees (roots, children, handlers).'),
@@ -78,7 +81,9 @@ _MAN = {
            'early. The full statement is REFUTED on the faithful model (main blocked copying into a full root when the source stops: known finding F9, witness + proof that no schedule with the node stalled returns). '
            'Wall-clock bound measured by the harness (elapsed <= T*1000+1500 ms).'),
  'C18': _m('Coq theorems (Props/C18.v): for every schedule the source events of the trace are exactly Prep0 Start0 End0err Prep1 Start1 ... PrepK StartK [EndK nil]: prepared before started, started once, restart only after an '
-           'error, nil return final; events only from a running incarnation. Real code: scripted failing sources (hard-wired 10 s pause), same channel/params observed by the harness.'),
+           'error, nil return final; events only from a running incarnation; or ending, after an error return, with the failed Setup of the replacement (action SrcSetupFail, state SDead: the real executor '
+           'exits there) and nothing after it (C18_start_needs_prep, C18_nothing_after_failed_setup, C18_failed_setup_is_final). Real code: scripted failing sources (hard-wired 10 s pause), same channel/params '
+           'observed by the harness; the Setup-failure scenario runs in a child process and its trace prefix is judged by trace_ok.'),
 }
 # observable components (Judge/E1.v): 1 context tree, 2 channel lengths, 3 calls at the gate, 4 recv/proc/filt/fail counters,
 # 5 discarded counter, 6 Shutdown begun/ended, 7 Execute returned, 8 source state, 9 async in flight, 10 shape
